@@ -7,6 +7,7 @@ import (
 	"fmt"
 	"io"
 	"math"
+	"math/bits"
 	"testing"
 
 	"github.com/openacid/low/iohelper"
@@ -26,8 +27,8 @@ type Op struct {
 }
 
 type Fault struct {
-	Kind string `json:"kind"`        // none | capacity | oneshot
-	C    int64  `json:"c,omitempty"` // capacity: absolute offsets >= C are refused; oneshot: the trip offset
+	Kind string `json:"kind"`        // none | capacity | oneshot | fullerr | shortnil
+	C    int64  `json:"c,omitempty"` // capacity: absolute offsets >= C are refused; oneshot / fullerr / shortnil: the trip offset
 	J    int    `json:"j,omitempty"` // (unused, kept for old case files)
 }
 
@@ -43,17 +44,18 @@ type Case struct {
 
 var checker = &vk.Checker[Case]{
 	ID: "C18",
-	Rule: "sections (off in {0,1,7,100,2^32+5,2^62}, n in {0,1,2,8,64}) or AtToWriter(w, off), also stacked on an inner SectionWriter (nested), over a recording in-memory WriterAt with a fault plan (none; capacity C: bytes at absolute offset >= C refused after writing those below with (m<len, errFull); one-shot: the first write covering a trip offset stores the bytes before it and fails with errIO); " +
-		"histories of <= 40 (thorough <= 200) steps: Write(len 0, 1, .., exactly to the limit, crossing it), WriteAt(buf, o in [-2, n+3] or at the top of int64), Seek(offset in [-n-3, n+3] or 2^33, whence in {0,1,2,3,-1}), Size; each buffer carries a per-step byte pattern; fixed histories with buffers of several MiB. " +
+	Rule: "sections (off in {0,1,7,100,509,4094,2^32+5,2^62} or log-uniform below 2^62, n in {0,1,2,8,64} or log-uniform in [1, 2^14)) or AtToWriter(w, off), also stacked on an inner SectionWriter (nested), over a recording in-memory WriterAt with a fault plan (none; capacity C: bytes at absolute offset >= C refused after writing those below with (m<len, errFull); one-shot: the first write covering a trip offset stores the bytes before it and fails with errIO; fullerr: the first write covering a trip offset stores ALL its bytes and still returns (len, errLate); shortnil: the first write covering a trip offset stores the bytes before it and returns (m<len, nil) - not a conformant io.WriterAt, see the latitude); " +
+		"histories of <= 40 (thorough <= 200) steps: Write(len 0, 1, .., exactly to the limit, crossing it, log-uniform up to 2^14; an empty buffer is nil in about half of the steps, about half of the buffers start at an odd address inside a larger buffer), WriteAt(buf, o in [-2, n+3] or at the top of int64), Seek(offset in [-n-3, n+3] or 2^33, whence in {0,1,2,3,-1}), Size; AtToWriter histories also around a far section-relative position F (2^34 <= F <= 2^61, log-uniform and 2^k-1, 2^k, 2^k+1) and single WriteAt calls at such offsets; each buffer carries a per-step byte pattern; fixed histories for every section length 2^k-1, 2^k, 2^k+1 and two more per octave (k <= 20, thorough 22) under every fault kind (the quick tier thins them out: every second combination above 2^12, two histories per octave above 2^16), for every far position 2^34..2^61, and with buffers of several MiB. " +
 		"Reference model: base/cursor/limit + expected memory image + expected (n, error class) per step; after EVERY step: return values, every byte the recorder received lies inside [off, off+n), the memory image (position and content of every byte that landed) == model (the number of underlying calls is not asserted), cursor == model (observed via Seek(0, SeekCurrent)), Size()==n. " +
-		"Latitude the statement leaves (all accepted): an EMPTY request inside the writer's own section need not reach the underlying writer (its error may or may not surface); a request that is truncated AND fails may return either error; a Seek beyond the section end may be refused if the cursor then stays; the error value for a negative WriteAt offset (count 0); AtToWriter offsets beyond 2^61. " +
-		"Non-trivial: >= 2 writes with a Seek or a truncated/failed write before a later write. Distinct by hash of the history.",
+		"Latitude the statement leaves (all accepted): an error that wraps the expected one (errors.Is) counts as that error; an EMPTY request inside the writer's own section need not reach the underlying writer (its error may or may not surface); a request that is truncated AND fails may return either error; a Seek beyond the section end may be refused if the cursor then stays; the error value for a negative WriteAt offset (count 0); AtToWriter offsets beyond 2^61; how a request is cut into underlying calls: under fullerr the count may be anything from the trip offset's byte to the whole request as long as exactly that prefix landed and the cursor follows it; under shortnil (the writer breaks the io.WriterAt contract) only this is asserted: the count is the prefix that landed (the bytes before the trip offset, or the whole request if the implementation re-issues the rest), the cursor advanced by it, the error IS io.ErrShortWrite if the writer's own section end cut the request, is NOT io.ErrShortWrite if the request fits the section (nil or any other error), and is open if only an inner section's end cut it. " +
+		"Non-trivial: >= 2 writes with a Seek or a truncated/failed/short write before a later write. Distinct by hash of the history.",
 	Check:    check,
 	Classify: classify,
 }
 
 var errFull = errors.New("injected: device full")
 var errIO = errors.New("injected: i/o error")
+var errLate = errors.New("injected: write stored, sync failed")
 
 // recorder is the underlying io.WriterAt: sparse memory image + call log + fault plan.
 type call struct {
@@ -67,60 +69,109 @@ type page struct {
 	w [4096]bool
 }
 
-type image struct{ pages map[int64]*page }
+type image struct {
+	pages map[int64]*page
+	dirty map[int64]struct{} // pages written since the last comparison
+}
 
-func newImage() *image { return &image{pages: map[int64]*page{}} }
+func newImage() *image { return &image{pages: map[int64]*page{}, dirty: map[int64]struct{}{}} }
 
 func (im *image) write(off int64, p []byte) {
-	for i, x := range p {
-		a := off + int64(i)
-		pg := im.pages[a>>12]
+	for len(p) > 0 {
+		k, at := off>>12, int(off&4095)
+		pg := im.pages[k]
 		if pg == nil {
 			pg = &page{}
-			im.pages[a>>12] = pg
+			im.pages[k] = pg
 		}
-		pg.b[a&4095], pg.w[a&4095] = x, true
+		im.dirty[k] = struct{}{}
+		n := copy(pg.b[at:], p)
+		for i := at; i < at+n; i++ {
+			pg.w[i] = true
+		}
+		p, off = p[n:], off+int64(n)
 	}
 }
 
-// diff returns the first absolute offset at which two images differ.
-func (im *image) diff(o *image) (int64, bool) {
-	for _, pair := range [][2]*image{{im, o}, {o, im}} {
-		for k, pg := range pair[0].pages {
-			og := pair[1].pages[k]
-			for i := range pg.b {
-				if pg.w[i] && (og == nil || !og.w[i] || og.b[i] != pg.b[i]) {
-					return k<<12 + int64(i), true
-				}
+func pageDiff(a, b *page) (int, bool) {
+	if a == nil && b == nil {
+		return 0, false
+	}
+	if a == nil {
+		a, b = b, a
+	}
+	for i := range a.b {
+		if b == nil {
+			if a.w[i] {
+				return i, true
 			}
+		} else if a.w[i] != b.w[i] || (a.w[i] && a.b[i] != b.b[i]) {
+			return i, true
 		}
 	}
 	return 0, false
 }
 
+// diff returns an absolute offset at which two images differ (written in one and not in the other, or
+// written with different bytes). Only the pages touched since the previous comparison are looked at:
+// the others were equal then and have not changed.
+func (im *image) diff(o *image) (int64, bool) {
+	at, differ := int64(0), false
+	for _, d := range []map[int64]struct{}{im.dirty, o.dirty} {
+		for k := range d {
+			if i, bad := pageDiff(im.pages[k], o.pages[k]); bad && (!differ || k<<12+int64(i) < at) {
+				at, differ = k<<12+int64(i), true
+			}
+		}
+	}
+	if !differ {
+		clear(im.dirty)
+		clear(o.dirty)
+	}
+	return at, differ
+}
+
+// answer is the fault plan: what the underlying writer does with WriteAt(l bytes at absolute offset off).
+// It returns how many bytes are stored, the error, and which contract-relevant fault fired.
+// The positional faults are defined by position and not by call number so that they mean the same for
+// an implementation that cuts a buffer into several calls.
+func answer(f Fault, tripped *bool, off int64, l int) (n int, err error, fired string) {
+	n = l
+	covers := !*tripped && l > 0 && off <= f.C && f.C < off+int64(l)
+	switch f.Kind {
+	case "capacity":
+		if off+int64(l) > f.C {
+			n, err = int(max(f.C-off, 0)), errFull
+		}
+	case "oneshot": // the first write that covers the trip offset stores the bytes before it and fails; later writes are not affected
+		if covers {
+			*tripped = true
+			n, err = int(f.C-off), errIO
+		}
+	case "fullerr": // the first write that covers the trip offset stores everything and reports an error all the same
+		if covers {
+			*tripped = true
+			err, fired = errLate, "fullerr"
+		}
+	case "shortnil": // the first write that covers the trip offset stores the bytes before it and reports NO error
+		if covers {
+			*tripped = true
+			n, fired = int(f.C-off), "shortnil"
+		}
+	}
+	return
+}
+
 type recorder struct {
-	img      *image
-	calls    []call
-	fault    Fault
-	nonEmpty int
-	tripped  bool
+	img     *image
+	calls   []call
+	fault   Fault
+	tripped bool
 }
 
 func (r *recorder) WriteAt(p []byte, off int64) (int, error) {
 	r.calls = append(r.calls, call{off, len(p)})
-	n := len(p)
-	var err error
-	if r.fault.Kind == "capacity" && off+int64(len(p)) > r.fault.C {
-		n = int(max(r.fault.C-off, 0))
-		err = errFull
-	}
-	// one-shot fault, defined by position (not by call number, so that it means the same for an
-	// implementation that splits a buffer into several calls): the first write that covers the trip
-	// offset stores the bytes before it and fails; later writes are not affected
-	if r.fault.Kind == "oneshot" && !r.tripped && len(p) > 0 && off <= r.fault.C && r.fault.C < off+int64(len(p)) {
-		r.tripped = true
-		n, err = int(r.fault.C-off), errIO
-	}
+	n, err, _ := answer(r.fault, &r.tripped, off, len(p))
 	r.img.write(off, p[:n])
 	return n, err
 }
@@ -137,36 +188,37 @@ func pattern(step, n int) []byte {
 
 type model struct {
 	base, cur, limit int64
-	ownEnd           int64 // nested-section: end of the outer section itself (SeekEnd refers to it)
+	ownEnd           int64 // nested kinds: end of the outer section itself (SeekEnd refers to it)
+	unbounded        bool  // AtToWriter directly over the recorder: "no practical end"
 	img              *image
 	fault            Fault
-	nonEmpty         int
 	tripped          bool
-	calls            []call
 }
 
-// under models the underlying writer's answer to WriteAt(p, off).
-func (m *model) under(p []byte, off int64) (int, error) {
-	m.calls = append(m.calls, call{off, len(p)})
-	n := len(p)
-	var err error
-	if m.fault.Kind == "capacity" && off+int64(len(p)) > m.fault.C {
-		n = int(max(m.fault.C-off, 0))
-		err = errFull
-	}
-	if m.fault.Kind == "oneshot" && !m.tripped && len(p) > 0 && off <= m.fault.C && m.fault.C < off+int64(len(p)) {
-		m.tripped = true
-		n, err = int(m.fault.C-off), errIO
-	}
-	m.img.write(off, p[:n])
-	return n, err
-}
+// farLimit: the statement promises "no practical end" for AtToWriter; section-relative positions up to
+// 2^61 are taken to be covered by that, what lies beyond (next to MaxInt64) is not asserted.
+const farLimit = int64(1) << 61
+
+// tooFar: a Write at the cursor of an unbounded writer beyond farLimit is outside what is asserted.
+func (m *model) tooFar() bool { return m.unbounded && m.cur-m.base > farLimit }
+
+// error rules of a step (latitude.rule)
+const (
+	rulePrimary = iota // the primary error, altErr, or nil under nilOK
+	ruleNoShort        // anything but io.ErrShortWrite (nil included)
+	ruleAny            // not asserted
+)
 
 // latitude is what the statement leaves open next to the model's primary answer.
 type latitude struct {
 	altErr error // also acceptable instead of the primary error (same count)
 	nilOK  bool  // (count, nil) is acceptable too: an EMPTY request that an implementation need not hand down
 	loose  bool  // negative WriteAt offset: only "nothing passed through" is required
+	lo, hi int   // hi > 0: every count in [lo, hi] is acceptable as well (see under)
+	rule   int
+	passed bool // the request reaches the underlying writer, at absolute offset abs
+	abs    int64
+	fired  string
 }
 
 // ownEndOr is the end of the writer's own section (for a stacked writer it may lie beyond limit, the
@@ -178,69 +230,143 @@ func (m *model) sectionEnd() int64 {
 	return m.limit
 }
 
-func (m *model) write(p []byte) (int, error, latitude) {
-	var lat latitude
-	if m.cur >= m.limit {
-		// at or beyond the section end: ErrShortWrite, also for an empty request ("starts at or beyond").
-		// Inside the own section but beyond the inner one, the refusal is the INNER writer's: an empty
-		// request that is not handed down sees no error.
-		lat.nilOK = len(p) == 0 && m.cur < m.sectionEnd()
-		return 0, io.ErrShortWrite, lat
-	}
-	empty := len(p) == 0
+// pass models handing l bytes (of a request of want bytes, already cut to the section) to the
+// underlying writer at absolute offset abs. It returns the primary count and error.
+func (m *model) pass(abs int64, l, want int, lat *latitude) (int, error) {
+	trunc := l < want
+	truncOwn := abs+int64(want) > m.sectionEnd() // cut by the end of the writer's own section (not only by an inner one)
 	var err error
-	trunc := false
-	if room := m.limit - m.cur; int64(len(p)) > room {
-		p = p[:room]
+	if trunc {
 		err = io.ErrShortWrite
-		trunc = true
 	}
-	n, e := m.under(p, m.cur)
-	m.cur += int64(n)
+	n, e, fired := answer(m.fault, &m.tripped, abs, l)
+	lat.passed, lat.abs, lat.fired = true, abs, fired
 	if e != nil {
 		err = e
 		if trunc { // truncated AND the underlying writer failed: the statement does not rank the two errors
 			lat.altErr = io.ErrShortWrite
 		}
-		lat.nilOK = empty // an underlying error can only be propagated if the (empty) request was handed down
+		lat.nilOK = want == 0 // an underlying error can only be propagated if the (empty) request was handed down
 	}
+	switch fired {
+	case "fullerr":
+		// an implementation that cuts the request into several calls stops after the call that covered the
+		// trip offset: any prefix that includes that byte may have gone through (the image and the cursor
+		// must agree with the count returned)
+		lat.lo, lat.hi = int(m.fault.C-abs)+1, l
+	case "shortnil":
+		// (m < len, nil) breaks the io.WriterAt contract. Fixed by the statement: the count is what went
+		// through, ErrShortWrite exactly when the section end cut the request. Open: whether the rest is
+		// re-issued (then everything goes through), and which error - if any - reports the short count.
+		lat.lo, lat.hi = l, l
+		switch {
+		case truncOwn: // primary: ErrShortWrite
+		case trunc: // only an inner section's end cut it: whether that writer saw the cut depends on how the request was handed down
+			lat.rule = ruleAny
+		default:
+			lat.rule = ruleNoShort
+		}
+	}
+	return n, err
+}
+
+func (m *model) write(l int) (int, error, latitude) {
+	var lat latitude
+	if m.cur >= m.limit {
+		// at or beyond the section end: ErrShortWrite, also for an empty request ("starts at or beyond").
+		// Inside the own section but beyond the inner one, the refusal is the INNER writer's: an empty
+		// request that is not handed down sees no error.
+		lat.nilOK = l == 0 && m.cur < m.sectionEnd()
+		return 0, io.ErrShortWrite, lat
+	}
+	want := l
+	if room := m.limit - m.cur; int64(l) > room {
+		l = int(room)
+	}
+	n, err := m.pass(m.cur, l, want, &lat)
+	m.cur += int64(n)
 	return n, err, lat
 }
 
-func (m *model) writeAt(p []byte, o int64) (int, error, latitude) {
+func (m *model) writeAt(l int, o int64) (int, error, latitude) {
 	var lat latitude
 	if o < 0 {
 		lat.loose = true
 		return 0, io.ErrShortWrite, lat
 	}
 	if o >= m.limit-m.base {
-		lat.nilOK = len(p) == 0 && o+m.base < m.sectionEnd()
+		lat.nilOK = l == 0 && o+m.base < m.sectionEnd()
 		return 0, io.ErrShortWrite, lat
 	}
 	abs := o + m.base
-	empty := len(p) == 0
-	var err error
-	trunc := false
-	if room := m.limit - abs; int64(len(p)) > room {
-		p = p[:room]
-		err = io.ErrShortWrite
-		trunc = true
+	want := l
+	if room := m.limit - abs; int64(l) > room {
+		l = int(room)
 	}
-	n, e := m.under(p, abs)
-	if e != nil {
-		err = e
-		if trunc {
-			lat.altErr = io.ErrShortWrite
-		}
-		lat.nilOK = empty
-	}
+	n, err := m.pass(abs, l, want, &lat)
 	return n, err, lat
+}
+
+// settle books what the library reported for a step (gn, accepted against the primary count wn and the
+// latitude): the bytes that went through enter the expected image, a cursor follows the count.
+func (m *model) settle(lat latitude, buf []byte, wn, gn int, cursor bool) {
+	if lat.passed && gn > 0 {
+		m.img.write(lat.abs, buf[:gn])
+	}
+	if cursor {
+		m.cur += int64(gn - wn)
+	}
+	if gn != wn {
+		vk.Label("accepted-other-count-than-one-call-model:"+lat.fired, 1)
+	}
+}
+
+// note words the latitude of a step for a failure message.
+func (lat latitude) note() string {
+	switch lat.fired {
+	case "fullerr":
+		return fmt.Sprintf(" [the underlying writer stored all bytes and returned an error; counts %d..%d accepted]", lat.lo, lat.hi)
+	case "shortnil":
+		r := "the error must be io.ErrShortWrite: the section end cut the request"
+		if lat.rule == ruleNoShort {
+			r = "the request fits the section, so the error must not be io.ErrShortWrite"
+		} else if lat.rule == ruleAny {
+			r = "error not asserted"
+		}
+		return fmt.Sprintf(" [the underlying writer stored fewer bytes and returned a nil error; count %d (all re-issued) accepted too; %s]", lat.hi, r)
+	}
+	return ""
+}
+
+// argument is the buffer handed to the library for step si: equal to data, and - as a pure function of
+// the case - nil instead of empty for about half of the empty buffers, and for about half of the others a
+// slice that starts 1..7 bytes into a larger buffer with foreign non-zero bytes before it and in its
+// spare capacity (tail reports whether those are still intact).
+func argument(c Case, si int, data []byte) (buf []byte, tail func() bool) {
+	sum := vk.Mix(uint64(si)*0x9e3779b97f4a7c15 ^ uint64(len(c.Ops))<<32 ^ uint64(c.Off) ^ uint64(len(data))<<7)
+	if len(data) == 0 {
+		if sum&1 == 0 {
+			return nil, func() bool { return true }
+		}
+		return []byte{}, func() bool { return true }
+	}
+	return vk.OddBytes(data, sum)
+}
+
+func isShort(err error) bool {
+	return err != nil && (err == io.ErrShortWrite || errors.Is(err, io.ErrShortWrite))
 }
 
 // accepts: the library's answer against the model's primary answer and its latitude.
 func accepts(gn int, gerr error, wn int, werr error, lat latitude) bool {
-	if gn != wn {
+	if gn != wn && !(lat.hi > 0 && lat.lo <= gn && gn <= lat.hi) {
 		return false
+	}
+	switch lat.rule {
+	case ruleNoShort:
+		return !isShort(gerr)
+	case ruleAny:
+		return true
 	}
 	if sameErr(gerr, werr) {
 		return true
@@ -290,7 +416,7 @@ func sameErr(got, want error) bool {
 
 func check(c Case) *vk.Failure {
 	rec := &recorder{img: newImage(), fault: c.Fault}
-	m := &model{base: c.Off, cur: c.Off, img: newImage(), fault: c.Fault}
+	m := modelFor(c)
 	var w io.Writer
 	secOff, secN := c.Off, c.N // the section the writer under test must stay inside, and what Size must report
 	if c.Kind == "nested-section" || c.Kind == "nested-at" {
@@ -300,31 +426,22 @@ func check(c Case) *vk.Failure {
 		if f := vk.Try("NewSectionWriter(inner)", func() { inner = iohelper.NewSectionWriter(rec, c.Off, c.N) }); f != nil {
 			return f
 		}
-		m.base, m.cur = c.Off+c.Off2, c.Off+c.Off2
-		m.limit = c.Off + c.N
 		if c.Kind == "nested-section" {
-			m.ownEnd = c.Off + c.Off2 + c.N2
-			if m.ownEnd < m.limit {
-				m.limit = m.ownEnd
-			}
 			if f := vk.Try("NewSectionWriter(outer over inner)", func() { w = iohelper.NewSectionWriter(inner, c.Off2, c.N2) }); f != nil {
 				return f
 			}
 			secN = c.N2
 		} else {
-			m.ownEnd = math.MaxInt64 // AtToWriter's own section has no practical end: only the inner section refuses
 			if f := vk.Try("AtToWriter(inner section)", func() { w = iohelper.AtToWriter(inner, c.Off2) }); f != nil {
 				return f
 			}
 		}
 		secOff = c.Off + c.Off2
 	} else if c.Kind == "section" {
-		m.limit = c.Off + c.N
 		if f := vk.Try("NewSectionWriter", func() { w = iohelper.NewSectionWriter(rec, c.Off, c.N) }); f != nil {
 			return f
 		}
 	} else {
-		m.limit = math.MaxInt64
 		if f := vk.Try("AtToWriter", func() { w = iohelper.AtToWriter(rec, c.Off) }); f != nil {
 			return f
 		}
@@ -343,30 +460,37 @@ func check(c Case) *vk.Failure {
 		callsBefore := len(rec.calls)
 		switch op.K {
 		case "write":
-			buf := pattern(si, op.Len)
-			keep := append([]byte(nil), buf...)
-			wn, werr, lat := m.write(keep)
+			if m.tooFar() {
+				continue // "no practical end": a cursor next to MaxInt64 is outside what AtToWriter promises
+			}
+			keep := pattern(si, op.Len)
+			buf, tail := argument(c, si, keep)
+			wn, werr, lat := m.write(op.Len)
 			var gn int
 			var gerr error
 			if f := vk.Try(step, func() { gn, gerr = w.Write(buf) }); f != nil {
 				return f
 			}
 			if !accepts(gn, gerr, wn, werr, lat) {
-				return vk.Failf("write-result", "%s: Write returned (%d, %v), model (%d, %v)", step, gn, gerr, wn, werr)
+				return vk.Failf("write-result", "%s: Write returned (%d, %v), model (%d, %v)%s", step, gn, gerr, wn, werr, lat.note())
 			}
-			if string(buf) != string(keep) {
-				return vk.Failf("write-mutates", "%s: Write modified the caller's buffer", step)
+			m.settle(lat, keep, wn, gn, true)
+			if string(buf) != string(keep) || !tail() {
+				return vk.Failf("write-mutates", "%s: Write modified the caller's buffer (or the memory next to it)", step)
 			}
 		case "writeat":
 			if wat == nil {
 				continue
 			}
-			buf := pattern(si, op.Len)
-			keep := append([]byte(nil), buf...)
-			if !bounded2(c.Kind) && op.O > 1<<61 {
+			if m.unbounded && (op.O > farLimit || c.Off > math.MaxInt64-farLimit-int64(op.Len)) {
 				continue // "no practical end": offsets next to MaxInt64 are outside what AtToWriter promises
 			}
-			wn, werr, lat := m.writeAt(keep, op.O)
+			if !bounded2(c.Kind) && op.O > farLimit {
+				continue // the same for AtToWriter over a section (the inner section refuses such offsets anyway)
+			}
+			keep := pattern(si, op.Len)
+			buf, _ := argument(c, si, keep)
+			wn, werr, lat := m.writeAt(op.Len, op.O)
 			var gn int
 			var gerr error
 			if f := vk.Try(step, func() { gn, gerr = wat.WriteAt(buf, op.O) }); f != nil {
@@ -379,7 +503,9 @@ func check(c Case) *vk.Failure {
 					return vk.Failf("writeat-negative", "%s: WriteAt at a negative offset returned count %d (err %v), want 0", step, gn, gerr)
 				}
 			} else if !accepts(gn, gerr, wn, werr, lat) {
-				return vk.Failf("writeat-result", "%s: WriteAt returned (%d, %v), model (%d, %v)", step, gn, gerr, wn, werr)
+				return vk.Failf("writeat-result", "%s: WriteAt returned (%d, %v), model (%d, %v)%s", step, gn, gerr, wn, werr, lat.note())
+			} else {
+				m.settle(lat, keep, wn, gn, false)
 			}
 		case "seek":
 			if seeker == nil {
@@ -456,6 +582,8 @@ func modelFor(c Case) *model {
 	case "section":
 		m.limit = c.Off + c.N
 	case "nested-section", "nested-at":
+		// a writer stacked on an inner SectionWriter [Off, Off+N): it behaves like one section that starts
+		// at Off+Off2 and ends where the first of the two ends
 		m.base, m.cur = c.Off+c.Off2, c.Off+c.Off2
 		m.limit = c.Off + c.N
 		if c.Kind == "nested-section" {
@@ -464,8 +592,10 @@ func modelFor(c Case) *model {
 				m.limit = m.ownEnd
 			}
 		} else {
-			m.ownEnd = math.MaxInt64
+			m.ownEnd = math.MaxInt64 // AtToWriter's own section has no practical end: only the inner section refuses
 		}
+	default:
+		m.unbounded = true
 	}
 	return m
 }
@@ -475,19 +605,36 @@ func classify(c Case) (bool, []string) {
 	if c.Kind == "section" && c.N == 0 {
 		labels = append(labels, "n=0")
 	}
+	if c.N > 64 {
+		labels = append(labels, fmt.Sprintf("n:2^%d..", bits.Len64(uint64(c.N))-1))
+	}
+	switch c.Off {
+	case 0, 1, 7, 100, 509, 4094, 1<<32 + 5, 1 << 62:
+	default:
+		labels = append(labels, "off:other")
+	}
 	// replay the model alone
 	m := modelFor(c)
 	writes, disturbed, nt := 0, false, false
-	trunc, failed, seeks := false, false, false
-	for si, op := range c.Ops {
+	trunc, failed, seeks, far, late, silent, long := false, false, false, false, false, false, false
+	for _, op := range c.Ops {
 		switch op.K {
 		case "write", "writeat":
 			var n int
 			var err error
+			var lat latitude
+			at := m.cur - m.base
 			if op.K == "write" {
-				n, err, _ = m.write(pattern(si, op.Len))
+				if m.tooFar() {
+					continue
+				}
+				n, err, lat = m.write(op.Len)
 			} else {
-				n, err, _ = m.writeAt(pattern(si, op.Len), op.O)
+				if !bounded2(c.Kind) && op.O > farLimit {
+					continue
+				}
+				n, err, lat = m.writeAt(op.Len, op.O)
+				at = op.O
 			}
 			if writes >= 1 && disturbed {
 				nt = true
@@ -498,33 +645,67 @@ func classify(c Case) (bool, []string) {
 			} else if err != nil {
 				failed, disturbed = true, true
 			}
-			_ = n
+			if lat.fired == "shortnil" {
+				silent, disturbed = true, true
+			}
+			late = late || lat.fired == "fullerr"
+			far = far || (m.unbounded && lat.passed && at >= 1<<34)
+			long = long || n > 68
 		case "seek":
 			if _, ok := m.seek(op.O, op.Whence); ok {
 				seeks, disturbed = true, true
 			}
 		}
 	}
-	if trunc {
-		labels = append(labels, "has-truncated-write")
-	}
-	if failed {
-		labels = append(labels, "has-underlying-error")
-	}
-	if seeks {
-		labels = append(labels, "has-seek")
+	for _, l := range []struct {
+		on   bool
+		name string
+	}{{trunc, "has-truncated-write"}, {failed, "has-underlying-error"}, {late, "has-error-with-full-count"}, {silent, "has-short-count-without-error"},
+		{seeks, "has-seek"}, {far, "has-write-at-far-offset(>=2^34)"}, {long, "has-write-longer-than-68-bytes"}} {
+		if l.on {
+			labels = append(labels, l.name)
+		}
 	}
 	return writes >= 2 && nt, labels
 }
 
 // ---------------------------------------------------------------- generator
 
+// logUniform draws a magnitude whose exponent is uniform in [loExp, hiExp]: 2^e-1, 2^e, 2^e+1 or a
+// uniform value of [2^e, 2^(e+1)). The result is below 2^(hiExp+1).
+func logUniform(t *rapid.T, loExp, hiExp int, label string) int64 {
+	e := uint(loExp + gen.Uniform(t, hiExp-loExp+1, label+".exp"))
+	switch gen.Uniform(t, 5, label+".shape") {
+	case 0:
+		return int64(1) << e
+	case 1:
+		return int64(1)<<e - 1
+	case 2:
+		return int64(1)<<e + 1
+	default:
+		return int64(1)<<e + int64(gen.U64(t, label+".m")%(uint64(1)<<e))
+	}
+}
+
 func genCase(t *rapid.T) Case {
 	c := Case{Kind: "section"}
-	c.Off = rapid.SampledFrom([]int64{0, 1, 7, 100, 1<<32 + 5, 1 << 62}).Draw(t, "off")
+	c.Off = rapid.SampledFrom([]int64{0, 1, 7, 100, 1<<32 + 5, 1 << 62, 509, 4094}).Draw(t, "off")
+	if gen.Chance(t, 1, 6, "anyoff") {
+		c.Off = logUniform(t, 0, 60, "offv") // < 2^61
+	}
 	c.N = rapid.SampledFrom([]int64{0, 1, 2, 8, 64, 8, 64}).Draw(t, "n")
+	if gen.Chance(t, 1, 6, "anyn") { // no holes between the small lengths and the fixed histories of the grid
+		c.N = logUniform(t, 0, 13, "nv")
+	}
+	var far int64 // AtToWriter: the history plays around this section-relative position
 	if gen.Chance(t, 1, 6, "attowriter") {
 		c.Kind, c.N = "attowriter", 0
+		if gen.Chance(t, 2, 5, "far") {
+			far = min(logUniform(t, 34, 60, "farv"), farLimit)
+			if gen.Chance(t, 1, 8, "far61") {
+				far = farLimit - int64(gen.Uniform(t, 70, "back"))
+			}
+		}
 	} else if gen.Chance(t, 1, 5, "nested") { // a writer stacked on a SectionWriter
 		c.Kind = []string{"nested-section", "nested-at"}[gen.Uniform(t, 2, "nestkind")]
 		c.Off2 = int64(gen.Uniform(t, int(c.N)+3, "off2"))
@@ -534,27 +715,38 @@ func genCase(t *rapid.T) Case {
 	if c.Kind == "attowriter" {
 		span = 64
 	}
-	switch gen.Uniform(t, 4, "fault") {
+	switch gen.Uniform(t, 7, "fault") {
 	case 0:
-		c.Fault = Fault{Kind: "capacity", C: c.Off - 1 + int64(gen.Uniform(t, int(span)+4, "cap"))}
+		c.Fault = Fault{Kind: "capacity", C: c.Off + far - 1 + int64(gen.Uniform(t, int(span)+4, "cap"))}
 	case 1:
-		c.Fault = Fault{Kind: "oneshot", C: c.Off + int64(gen.Uniform(t, int(span)+2, "trip"))}
+		c.Fault = Fault{Kind: "oneshot", C: c.Off + far + int64(gen.Uniform(t, int(span)+2, "trip"))}
+	case 2:
+		c.Fault = Fault{Kind: "fullerr", C: c.Off + far + int64(gen.Uniform(t, int(span)+2, "trip"))}
+	case 3:
+		c.Fault = Fault{Kind: "shortnil", C: c.Off + far + int64(gen.Uniform(t, int(span)+2, "trip"))}
 	default:
 		c.Fault = Fault{Kind: "none"}
 	}
 	n := 1 + gen.Len(t, vk.Pick(39, 199), "steps")
 	// the generator follows the cursor with its own copy of the model so that it can aim at the limit
 	m := modelFor(c)
+	unbounded := c.Kind == "attowriter" || c.Kind == "nested-at"
 	for i := 0; i < n; i++ {
 		var op Op
+		if far != 0 && i == 0 {
+			op = Op{K: "seek", O: far, Whence: 0}
+			m.seek(far, 0)
+			c.Ops = append(c.Ops, op)
+			continue
+		}
 		switch gen.Uniform(t, 10, "op") {
 		case 0, 1, 2, 3:
 			room := m.limit - m.cur
-			if c.Kind == "attowriter" || c.Kind == "nested-at" && false || room < 0 || room > 200 {
+			if c.Kind == "attowriter" || room < 0 || room > 1<<14 {
 				room = int64(gen.Uniform(t, 20, "room"))
 			}
 			var l int64
-			switch gen.Uniform(t, 6, "lclass") {
+			switch gen.Uniform(t, 7, "lclass") {
 			case 0:
 				l = 0
 			case 1:
@@ -565,41 +757,52 @@ func genCase(t *rapid.T) Case {
 				l = room + 1 + int64(gen.Uniform(t, 3, "over")) // crossing it
 			case 4:
 				l = max(room-1, 0)
+			case 5:
+				l = logUniform(t, 0, 13, "ll") // any length up to 2^14
 			default:
 				l = int64(gen.Uniform(t, int(span)+4, "l"))
 			}
 			op = Op{K: "write", Len: int(l)}
-			m.write(pattern(i, int(l)))
+			if !m.tooFar() {
+				m.write(int(l))
+			}
 		case 4, 5, 6:
 			o := int64(gen.Uniform(t, int(span)+6, "o")) - 2
 			room := span - o
 			var l int64
-			switch gen.Uniform(t, 5, "lclass") {
+			switch gen.Uniform(t, 6, "lclass") {
 			case 0:
 				l = 0
 			case 1:
 				l = max(room, 0)
 			case 2:
 				l = max(room+1, 1)
+			case 3:
+				l = logUniform(t, 0, 13, "ll")
 			default:
 				l = int64(gen.Uniform(t, int(span)+4, "l"))
 			}
+			o += far
 			if gen.Chance(t, 1, 15, "extreme") { // the largest offsets an int64 holds
 				o = []int64{math.MaxInt64, math.MaxInt64 - 1, math.MaxInt64 - c.Off, math.MaxInt64 - c.Off - 1, math.MaxInt64 - c.Off + 1, 1 << 62, math.MinInt64}[gen.Uniform(t, 7, "exto")]
+			} else if unbounded && gen.Chance(t, 1, 8, "faro") { // "no practical end": a lone write far away
+				o = min(logUniform(t, 34, 60, "farov"), farLimit)
 			}
 			op = Op{K: "writeat", Len: int(l), O: o}
-			m.writeAt(pattern(i, int(l)), o)
+			if bounded2(c.Kind) || o <= farLimit {
+				m.writeAt(int(l), o)
+			}
 		case 7, 8:
 			wh := rapid.SampledFrom([]int{0, 0, 1, 1, 2, 2, 3, -1}).Draw(t, "whence")
 			off := int64(gen.Uniform(t, int(2*span)+7, "so")) - span - 3
-			if gen.Chance(t, 1, 12, "far") {
+			if gen.Chance(t, 1, 12, "farjump") {
 				off = 1 << 33
 			}
-			if (c.Kind == "attowriter" || c.Kind == "nested-at") && wh == 2 {
+			if unbounded && wh == 2 {
 				wh = 1 // SeekEnd on an unbounded writer is relative to MaxInt64: outside the domain generated here
 			}
-			if c.Kind == "attowriter" && wh == 2 && off > 0 {
-				off = -off // positive SeekEnd offsets would overflow int64 on the unbounded section (outside the domain)
+			if wh == 0 && off != 1<<33 {
+				off += far
 			}
 			op = Op{K: "seek", O: off, Whence: wh}
 			m.seek(off, wh)
@@ -637,7 +840,59 @@ func TestGrid(t *testing.T) {
 		{Kind: "section", Off: 7, N: 5 << 20, Fault: Fault{Kind: "none"}, Ops: []Op{{K: "write", Len: 1<<20 + 1}, {K: "write", Len: 2<<20 + 5}, {K: "writeat", Len: 1<<20 + 3, O: 100}, {K: "seek", O: -10, Whence: 2}, {K: "write", Len: 3 << 20}}},
 		{Kind: "attowriter", Off: 100, Fault: Fault{Kind: "capacity", C: 100 + 2<<20 + 17}, Ops: []Op{{K: "write", Len: 1 << 20}, {K: "write", Len: 1<<20 + 1}, {K: "write", Len: 1 << 20}, {K: "write", Len: 5}}},
 		{Kind: "section", Off: 1, N: 3<<20 + 9, Fault: Fault{Kind: "oneshot", C: 1 + 1<<20 + 77}, Ops: []Op{{K: "write", Len: 65539}, {K: "write", Len: 2 << 20}, {K: "write", Len: 2 << 20}, {K: "writeat", Len: 4 << 20, O: 3}}},
+		// an underlying error that comes with a COMPLETE count (Write and WriteAt, also truncated, also through AtToWriter and stacked writers)
+		{Kind: "section", Off: 2, N: 8, Fault: Fault{Kind: "fullerr", C: 4}, Ops: []Op{{K: "write", Len: 4}, {K: "write", Len: 2}, {K: "write", Len: 5}}},
+		{Kind: "section", Off: 2, N: 8, Fault: Fault{Kind: "fullerr", C: 9}, Ops: []Op{{K: "write", Len: 4}, {K: "write", Len: 9}, {K: "writeat", Len: 1, O: 7}}},
+		{Kind: "section", Off: 2, N: 8, Fault: Fault{Kind: "fullerr", C: 5}, Ops: []Op{{K: "writeat", Len: 4, O: 1}, {K: "writeat", Len: 4, O: 1}, {K: "write", Len: 3}}},
+		{Kind: "section", Off: 2, N: 8, Fault: Fault{Kind: "fullerr", C: 8}, Ops: []Op{{K: "writeat", Len: 9, O: 3}, {K: "write", Len: 3}}},
+		{Kind: "attowriter", Off: 100, Fault: Fault{Kind: "fullerr", C: 103}, Ops: []Op{{K: "write", Len: 3}, {K: "write", Len: 3}, {K: "write", Len: 3}}},
+		{Kind: "nested-at", Off: 40, N: 24, Off2: 8, Fault: Fault{Kind: "fullerr", C: 50}, Ops: []Op{{K: "write", Len: 10}, {K: "write", Len: 10}, {K: "writeat", Len: 3, O: 1}}},
+		{Kind: "nested-section", Off: 7, N: 64, Off2: 60, N2: 16, Fault: Fault{Kind: "fullerr", C: 70}, Ops: []Op{{K: "write", Len: 3}, {K: "write", Len: 3}, {K: "write", Len: 3}}},
+		// an underlying writer that stores fewer bytes and reports no error, also (0, nil): fitting requests, truncated ones, stacked writers
+		{Kind: "section", Off: 2, N: 8, Fault: Fault{Kind: "shortnil", C: 4}, Ops: []Op{{K: "write", Len: 4}, {K: "write", Len: 2}, {K: "write", Len: 5}}},
+		{Kind: "section", Off: 2, N: 8, Fault: Fault{Kind: "shortnil", C: 2}, Ops: []Op{{K: "write", Len: 4}, {K: "write", Len: 4}, {K: "write", Len: 5}}},
+		{Kind: "section", Off: 2, N: 8, Fault: Fault{Kind: "shortnil", C: 5}, Ops: []Op{{K: "writeat", Len: 4, O: 1}, {K: "writeat", Len: 4, O: 1}, {K: "write", Len: 3}}},
+		{Kind: "section", Off: 2, N: 8, Fault: Fault{Kind: "shortnil", C: 5}, Ops: []Op{{K: "writeat", Len: 1, O: 3}, {K: "write", Len: 3}}},
+		{Kind: "section", Off: 2, N: 8, Fault: Fault{Kind: "shortnil", C: 8}, Ops: []Op{{K: "write", Len: 3}, {K: "write", Len: 9}, {K: "write", Len: 9}, {K: "writeat", Len: 9, O: 4}}},
+		{Kind: "section", Off: 2, N: 8, Fault: Fault{Kind: "shortnil", C: 8}, Ops: []Op{{K: "writeat", Len: 9, O: 3}, {K: "write", Len: 3}}},
+		{Kind: "attowriter", Off: 100, Fault: Fault{Kind: "shortnil", C: 104}, Ops: []Op{{K: "write", Len: 3}, {K: "write", Len: 3}, {K: "write", Len: 3}}},
+		{Kind: "nested-at", Off: 40, N: 24, Off2: 8, Fault: Fault{Kind: "shortnil", C: 50}, Ops: []Op{{K: "write", Len: 10}, {K: "write", Len: 10}, {K: "writeat", Len: 3, O: 1}}},
+		{Kind: "nested-at", Off: 40, N: 24, Off2: 8, Fault: Fault{Kind: "shortnil", C: 60}, Ops: []Op{{K: "write", Len: 10}, {K: "write", Len: 10}, {K: "write", Len: 1}}}, // cut by the inner section only
+		{Kind: "nested-section", Off: 7, N: 64, Off2: 60, N2: 16, Fault: Fault{Kind: "shortnil", C: 69}, Ops: []Op{{K: "write", Len: 3}, {K: "write", Len: 3}, {K: "write", Len: 3}}},
 	} {
 		checker.Run(t, c)
+	}
+	// "no practical end": AtToWriter around every far section-relative position 2^e (Write through the cursor and WriteAt)
+	for e := uint(34); e <= 61; e++ {
+		f := int64(1) << e
+		for _, off := range []int64{0, 1<<32 + 5, 1 << 62} {
+			c := Case{Kind: "attowriter", Off: off, Fault: Fault{Kind: "none"}, Ops: []Op{
+				{K: "writeat", Len: 5, O: f - 7}, {K: "writeat", Len: 4, O: f - 2}, {K: "seek", O: f - 3, Whence: 0}, {K: "write", Len: 2}, {K: "write", Len: 3}, {K: "write", Len: 1},
+				{K: "seek", O: -(f / 2), Whence: 1}, {K: "write", Len: 2}, {K: "seek", O: f/2 + 100, Whence: 1}, {K: "write", Len: 3}, {K: "writeat", Len: 2, O: f}}}
+			if e%3 == 0 {
+				c.Fault = Fault{Kind: "oneshot", C: off + f}
+			}
+			checker.Run(t, c)
+		}
+	}
+	// every section length 2^k-1, 2^k, 2^k+1 and two more in each octave, under every fault kind, with a history
+	// whose buffers are of the order of the section (a third, a half, a quarter, beyond the end)
+	for k := uint(1); k <= uint(vk.Pick(20, 22)); k++ {
+		sizes := []int64{1<<k - 1, 1 << k, 1<<k + 1}
+		for j := uint64(0); j < 2; j++ {
+			sizes = append(sizes, 1<<k+int64(vk.Mix(uint64(k)*16+j)%(1<<k)))
+		}
+		for si, n := range sizes {
+			off := []int64{7, 509, 0, 1<<32 + 5, 4094}[(int(k)+si)%5]
+			for fi, flt := range []Fault{{Kind: "none"}, {Kind: "oneshot", C: off + n - 2}, {Kind: "shortnil", C: off + n/2 + 1}, {Kind: "fullerr", C: off + n - 1}, {Kind: "capacity", C: off + n - 1},
+				{Kind: "shortnil", C: off + n - 1}, {Kind: "fullerr", C: off + n/3}} {
+				if !vk.Thorough() && (k > 12 && (fi+si)%2 == 1 || k > 16 && !(si >= 2 && si <= 3 && fi == []int{0, 3, 2, 6}[(int(k)+si)%4])) {
+					continue // the quick tier thins the large sizes out: every second combination above 2^12, two histories per octave above 2^16
+				}
+				checker.Run(t, Case{Kind: "section", Off: off, N: n, Fault: flt, Ops: []Op{
+					{K: "write", Len: int(n / 3)}, {K: "writeat", Len: int(n/2 + 1), O: n / 2}, {K: "seek", O: -(n / 4), Whence: 2}, {K: "write", Len: int(n / 4)}, {K: "write", Len: 1},
+					{K: "seek", O: 1, Whence: 0}, {K: "write", Len: int(n + 5)}, {K: "seek", O: n / 3, Whence: 0}, {K: "write", Len: int(n/3 + 1)}, {K: "size"}}})
+			}
+		}
 	}
 }
